@@ -33,11 +33,29 @@ macro_rules! spelling_harness {
     };
 }
 
-// @verif prop=C14 tier=quick timeout=1500 mem=8000 cost=300 concrete=1 unwind=12 clause="canonical spelling (Display) of each statement keyword re-tokenizes to the same single token" sample="DIM LET PRINT INPUT GOTO GOSUB RETURN IF THEN ELSE END STOP FOR TO STEP NEXT READ RESTORE DEF" bounds="19 keyword tokens, concrete"
-spelling_harness!(c14_spelling_keywords, Token::Dim, Token::Let, Token::Print, Token::Input, Token::Goto, Token::Gosub, Token::Return, Token::If, Token::Then, Token::Else, Token::End, Token::Stop, Token::For, Token::To, Token::Step, Token::Next, Token::Read, Token::Restore, Token::Def);
+// @verif prop=C14 tier=thorough timeout=3000 mem=24000 cost=900 concrete=1 unwind=12 clause="canonical spelling (real Display) of a payload-free token re-tokenizes through the real tokenizer to exactly that token" sample="DIM LET PRINT INPUT GOTO" bounds="5 tokens, concrete"
+spelling_harness!(c14_spelling_kw1, Token::Dim, Token::Let, Token::Print, Token::Input, Token::Goto);
 
-// @verif prop=C14 tier=quick timeout=1500 mem=8000 cost=300 concrete=1 unwind=12 clause="canonical spelling of each operator / delimiter re-tokenizes to the same single token" sample=": ; , ? ( ) + - * / ^ = <> < <= > >= AND OR NOT" bounds="20 operator tokens, concrete"
-spelling_harness!(c14_spelling_operators, Token::Colon, Token::Semicolon, Token::Comma, Token::QuestionMark, Token::LeftParen, Token::RightParen, Token::Plus, Token::Minus, Token::Multiply, Token::Divide, Token::Caret, Token::Equals, Token::NotEquals, Token::LessThan, Token::LessThanOrEqualTo, Token::GreaterThan, Token::GreaterThanOrEqualTo, Token::And, Token::Or, Token::Not);
+// @verif prop=C14 tier=thorough timeout=3000 mem=24000 cost=900 concrete=1 unwind=12 clause="canonical spelling (real Display) of a payload-free token re-tokenizes through the real tokenizer to exactly that token" sample="GOSUB RETURN IF THEN ELSE" bounds="5 tokens, concrete"
+spelling_harness!(c14_spelling_kw2, Token::Gosub, Token::Return, Token::If, Token::Then, Token::Else);
+
+// @verif prop=C14 tier=thorough timeout=3000 mem=24000 cost=900 concrete=1 unwind=12 clause="canonical spelling (real Display) of a payload-free token re-tokenizes through the real tokenizer to exactly that token" sample="END STOP FOR TO STEP" bounds="5 tokens, concrete"
+spelling_harness!(c14_spelling_kw3, Token::End, Token::Stop, Token::For, Token::To, Token::Step);
+
+// @verif prop=C14 tier=thorough timeout=3000 mem=24000 cost=900 concrete=1 unwind=12 clause="canonical spelling (real Display) of a payload-free token re-tokenizes through the real tokenizer to exactly that token" sample="NEXT READ RESTORE DEF" bounds="4 tokens, concrete"
+spelling_harness!(c14_spelling_kw4, Token::Next, Token::Read, Token::Restore, Token::Def);
+
+// @verif prop=C14 tier=thorough timeout=3000 mem=24000 cost=900 concrete=1 unwind=12 clause="canonical spelling (real Display) of a payload-free token re-tokenizes through the real tokenizer to exactly that token" sample=": ; , ? (" bounds="5 tokens, concrete"
+spelling_harness!(c14_spelling_op1, Token::Colon, Token::Semicolon, Token::Comma, Token::QuestionMark, Token::LeftParen);
+
+// @verif prop=C14 tier=thorough timeout=3000 mem=24000 cost=900 concrete=1 unwind=12 clause="canonical spelling (real Display) of a payload-free token re-tokenizes through the real tokenizer to exactly that token" sample=") + - * /" bounds="5 tokens, concrete"
+spelling_harness!(c14_spelling_op2, Token::RightParen, Token::Plus, Token::Minus, Token::Multiply, Token::Divide);
+
+// @verif prop=C14 tier=thorough timeout=3000 mem=24000 cost=900 concrete=1 unwind=12 clause="canonical spelling (real Display) of a payload-free token re-tokenizes through the real tokenizer to exactly that token" sample="^ = <> < <=" bounds="5 tokens, concrete"
+spelling_harness!(c14_spelling_op3, Token::Caret, Token::Equals, Token::NotEquals, Token::LessThan, Token::LessThanOrEqualTo);
+
+// @verif prop=C14 tier=thorough timeout=3000 mem=24000 cost=900 concrete=1 unwind=12 clause="canonical spelling (real Display) of a payload-free token re-tokenizes through the real tokenizer to exactly that token" sample="> >= AND OR NOT" bounds="5 tokens, concrete"
+spelling_harness!(c14_spelling_op4, Token::GreaterThan, Token::GreaterThanOrEqualTo, Token::And, Token::Or, Token::Not);
 
 // @verif prop=C15 tier=quick timeout=1800 mem=10000 cost=500 concrete=1 clause="core clause of C15: a source file loaded through the analyzer yields the same stored program as entering its lines at the prompt, with runtime state reset"
 // @verif sample="file: 20 X = 1 / 10 GOTO 20 ; prompt: the same two lines through start_evaluating" bounds="this 2-line file (concrete text)"
